@@ -89,7 +89,17 @@ class Subject(object):
         subs = []
         for sa in subalgs:
             subs.append((sa, {KeyFlags.EncryptCommunications} if sa in ('cv25519', 'ecdh256', 'ecdh384', 'ecdh521') or (sa.startswith('rsa') and len(subs) == 0) else {KeyFlags.Sign}))
-        self.key = K.new_key(alg, name='Life %s' % alg, email='life@x.org', subs=subs)
+        if alg == 'foreign-ecdh-kdf':
+            # a secret key from the independent encoder whose ECDH subkeys carry legal non-default KDF parameters (RFC 6637 section 9)
+            from . import enc as _enc
+            prim = build.ForeignKey('ed25519', created=K.T0)
+            recs = [(_enc.Recipient('ecdh256', created=K.T0 + 1, kdf=(10, 9)), 0x0C), (_enc.Recipient('ecdh384', created=K.T0 + 2, kdf=(9, 9)), 0x0C),
+                    (_enc.Recipient('cv25519', created=K.T0 + 3, kdf=(10, 9)), 0x0C)]
+            with warnings.catch_warnings():
+                warnings.simplefilter('ignore')
+                self.key = pgpy.PGPKey.from_blob(build.transferable_key(prim, [b'Life foreign <life@x.org>'], subkeys=recs, secret=True, created=K.T0 + 5))[0]
+        else:
+            self.key = K.new_key(alg, name='Life %s' % alg, email='life@x.org', subs=subs)
         third = K.new_key('ed25519', name='Third', email='third@x.org')
         self.key.userids[0] |= third.certify(self.key.userids[0], created=K.ts(K.T0 + 40))
         self.key.userids[0] |= third.certify(self.key.userids[0], exportable=False, created=K.ts(K.T0 + 41))
@@ -305,7 +315,7 @@ def generate(ctx, focus):
     behs = sorted({tuple(tuple(s) for s in p[1]) for p in g.prints if isinstance(p, list) and p and p[0] == 'BEH'})
     if len(behs) < 2000:
         raise MachineryError('Gen_KeyProtect produced %d behaviours' % len(behs))
-    kinds = [('ed25519', ['cv25519', 'ed25519']), ('rsa2048', ['rsa2048']), ('p256', ['ecdh256'])]
+    kinds = [('ed25519', ['cv25519', 'ed25519']), ('rsa2048', ['rsa2048']), ('p256', ['ecdh256']), ('foreign-ecdh-kdf', [])]
     if not ctx.quick:
         kinds += [('dsa1024', ['rsa2048']), ('p384', ['ecdh384']), ('rsa3072', ['cv25519']), ('k256', ['ed25519'])]
     traces = []
